@@ -1,0 +1,107 @@
+//go:build verif
+
+// Contracts for the verifier in /verif (zvc). This file is compiled only with the
+// build tag "verif"; it contains specification comments (//@ ...) keyed by function,
+// loop ordinal and call-site ordinal, plus executable lemma harnesses.
+package zap
+
+//@ func getChunkSize returns (cs, err)
+//@ pure
+//@ ensures err == nil ==> cs >= 1 [C01,C03,C06]
+//@ ensures err != nil ==> cs == 0 [C01]
+//@ ensures chunkMode == 0 ==> err != nil [C09]
+//@ ensures 1 <= chunkMode && chunkMode <= 1024 ==> err == nil && cs == uint64(chunkMode) [C09]
+//@ ensures chunkMode == 1025 && cardinality <= 1024 && maxDocs != 0 ==> err == nil && cs == maxDocs [C09]
+//@ ensures chunkMode == 1025 && cardinality > 1024 ==> err == nil && cs == 1024 [C09]
+//@ ensures chunkMode == 1026 && maxDocs/(cardinality/1024+1) != 0 ==> err == nil && cs == maxDocs/(cardinality/1024+1) [C09]
+//@ ensures chunkMode > 1026 ==> err != nil [C09]
+//@ end
+
+// ---- bit-level codecs (Layer 1, bit-vector mode) ----
+
+//@ func FSTValEncode1Hit returns (v)
+//@ mode bv
+//@ ensures v & FSTValEncodingMask == FSTValEncoding1Hit [C06,C09]
+//@ ensures v & mask31Bits == docNum & mask31Bits [C09]
+//@ ensures (v >> 31) & mask31Bits == normBits & mask31Bits [C09]
+//@ end
+
+//@ func FSTValDecode1Hit returns (docNum, normBits)
+//@ mode bv
+//@ ensures docNum == v & mask31Bits [C09]
+//@ ensures normBits == (v >> 31) & mask31Bits [C09]
+//@ end
+
+//@ func under32Bits returns (ok)
+//@ mode bv
+//@ ensures ok <==> x <= 0x7fffffff [C06]
+//@ end
+
+//@ func encodeFreqHasLocs returns (rv)
+//@ mode bv
+//@ ensures rv >> 1 == freq & 0x7fffffffffffffff [C01,C09]
+//@ ensures (rv & 1 != 0) <==> hasLocs [C01,C09]
+//@ end
+
+//@ func decodeFreqHasLocs returns (freq, hasLocs)
+//@ mode bv
+//@ ensures freq == freqHasLocs >> 1 [C01,C09]
+//@ ensures hasLocs <==> (freqHasLocs & 1 != 0) [C01,C09]
+//@ end
+
+//@ func numUvarintBytes returns (n)
+//@ mode bv
+//@ ensures n == uvSize(x) [C01,C06,C09]
+//@ loop 1 invariant 0 <= n && n <= 9 && x == old(x) >> uint64(7*n) && uvSize(old(x)) == n + uvSize(x) [C01,C06,C09]
+//@ end
+
+func verifAssert(cond bool) {}
+
+//@ func verifAssert
+//@ requires cond
+//@ end
+
+//@ lemma lemma1HitRoundTrip
+//@ mode bv
+//@ requires docNum <= mask31Bits && normBits <= mask31Bits
+//@ tags [C06,C09]
+//@ end
+func lemma1HitRoundTrip(docNum, normBits uint64) {
+	d, n := FSTValDecode1Hit(FSTValEncode1Hit(docNum, normBits))
+	verifAssert(d == docNum && n == normBits)
+}
+
+//@ lemma lemmaFreqHasLocsRoundTrip
+//@ mode bv
+//@ requires freq < 0x8000000000000000
+//@ tags [C01,C06,C09]
+//@ end
+func lemmaFreqHasLocsRoundTrip(freq uint64, hasLocs bool) {
+	f, h := decodeFreqHasLocs(encodeFreqHasLocs(freq, hasLocs))
+	verifAssert(f == freq && h == hasLocs)
+}
+
+//@ func (*memUvarintReader).ReadUvarint returns (v, err)
+//@ mode bv
+//@ requires r.C >= 0
+//@ requires r.C < len(r.S) ==> uvOK(row(r.S), off(r.S)+r.C) && uvLen(row(r.S), off(r.S)+r.C) <= len(r.S) - r.C
+//@ ensures old(r.C) >= len(r.S) ==> v == 0 && err == nil && r.C == old(r.C) [C01,C07]
+//@ ensures old(r.C) < len(r.S) ==> err == nil && v == uvVal(row(r.S), off(r.S)+old(r.C)) [C01,C06,C09]
+//@ ensures old(r.C) < len(r.S) ==> r.C == old(r.C) + uvLen(row(r.S), off(r.S)+old(r.C)) [C01,C06,C09]
+//@ modifies memUvarintReader.C
+//@ loop 1 invariant old(r.C) <= C && C <= old(r.C) + 9 && S == r.S && r.C == old(r.C) [C01,C06,C09]
+//@ bv loop 1 invariant C - old(r.C) < uvLen(row(S), off(S)+old(r.C)) [C01,C06,C09]
+//@ bv loop 1 invariant s == sh7(C - old(r.C)) && uvCont(row(S), off(S)+old(r.C), C - old(r.C)) && x == uvPart(row(S), off(S)+old(r.C), C - old(r.C)) [C01,C06,C09]
+//@ end
+
+//@ func (*memUvarintReader).SkipUvarint
+//@ mode bv
+//@ requires r.C >= 0 && r.C <= 0x4000000000000000
+//@ requires r.C < len(r.S) ==> uvLen(row(r.S), off(r.S)+r.C) <= len(r.S) - r.C && (uvLen(row(r.S), off(r.S)+r.C) < 10 || row(r.S)[off(r.S)+r.C+9] < 0x80)
+//@ ensures old(r.C) >= len(r.S) ==> r.C == old(r.C) [C01,C07]
+//@ ensures old(r.C) < len(r.S) ==> r.C == old(r.C) + uvLen(row(r.S), off(r.S)+old(r.C)) [C01,C06,C07]
+//@ modifies memUvarintReader.C
+//@ loop 1 invariant old(r.C) <= r.C && r.C <= old(r.C) + 9 && r.S == old(r.S) && (old(r.C) >= len(r.S) ==> r.C == old(r.C)) [C01,C06,C07]
+//@ bv loop 1 invariant old(r.C) < len(r.S) ==> r.C - old(r.C) < uvLen(row(r.S), off(r.S)+old(r.C)) [C01,C06,C07]
+//@ bv loop 1 invariant uvCont(row(r.S), off(r.S)+old(r.C), r.C - old(r.C)) && (old(r.C) < len(r.S) ==> r.C < len(r.S)) [C01,C06,C07]
+//@ end
